@@ -11,36 +11,42 @@ open Ptx
 /-! ### small changes of the helper state / the branch that do not touch the invariant -/
 
 section tweaks
-variable {L : LogicData} {mw : Nat} {dead : RuleId → Nat → Prop} {b : Branch} {h : BranchH}
+variable {L : LogicData} {mw mc : Nat} {dead : RuleId → Nat → Prop} {b : Branch} {h : BranchH}
 
-theorem HInv.setLS (H : HInv L mw dead b h) (x : Option Nat)
+theorem HInv.setLS (H : HInv L mw mc dead b h) (x : Option Nat)
     (hx : ∀ w2, x = some w2 → ∀ sn d, Node.sent sn d (some w2) ∉ b.nodes) :
-    HInv L mw dead b { h with lastSerial := x } :=
+    HInv L mw mc dead b { h with lastSerial := x } :=
   { windex := H.windex, unserial := H.unserial, cacheSound := H.cacheSound, cacheComplete := H.cacheComplete,
     nwDone := H.nwDone, ticked := H.ticked, closeNone := H.closeNone, closeSome := H.closeSome,
     worlded := H.worlded, lastSerial := hx }
 
-theorem HInv.setQuits (H : HInv L mw dead b h) (q : List (RuleKey × Bool)) :
-    HInv L mw dead b { h with quits := q } :=
+theorem HInv.setQuits (H : HInv L mw mc dead b h) (q : List (RuleKey × Bool)) :
+    HInv L mw mc dead b { h with quits := q } :=
   { windex := H.windex, unserial := H.unserial, cacheSound := H.cacheSound, cacheComplete := H.cacheComplete,
     nwDone := H.nwDone, ticked := H.ticked, closeNone := H.closeNone, closeSome := H.closeSome,
     worlded := H.worlded, lastSerial := H.lastSerial }
 
-theorem HInv.setParent (H : HInv L mw dead b h) (p : Option Nat) :
-    HInv L mw dead { b with parent := p } h :=
+theorem HInv.setNcs (H : HInv L mw mc dead b h) (q : List ((RuleKey × Nat) × List (Nat × Nat))) :
+    HInv L mw mc dead b { h with ncs := q } :=
   { windex := H.windex, unserial := H.unserial, cacheSound := H.cacheSound, cacheComplete := H.cacheComplete,
     nwDone := H.nwDone, ticked := H.ticked, closeNone := H.closeNone, closeSome := H.closeSome,
     worlded := H.worlded, lastSerial := H.lastSerial }
 
-theorem HInv.deadImp {dead' : RuleId → Nat → Prop} (H : HInv L mw dead b h) (himp : ∀ r i, dead' r i → dead r i) :
-    HInv L mw dead' b h :=
+theorem HInv.setParent (H : HInv L mw mc dead b h) (p : Option Nat) :
+    HInv L mw mc dead { b with parent := p } h :=
+  { windex := H.windex, unserial := H.unserial, cacheSound := H.cacheSound, cacheComplete := H.cacheComplete,
+    nwDone := H.nwDone, ticked := H.ticked, closeNone := H.closeNone, closeSome := H.closeSome,
+    worlded := H.worlded, lastSerial := H.lastSerial }
+
+theorem HInv.deadImp {dead' : RuleId → Nat → Prop} (H : HInv L mw mc dead b h) (himp : ∀ r i, dead' r i → dead r i) :
+    HInv L mw mc dead' b h :=
   H.recache h.caches (fun _ _ hi => hi) (fun r i hi hd => Or.inl ⟨hi, fun hd' => hd (himp r i hd')⟩)
 
 /-- one more recorded (node, world) pair of `NodesWorlds`, with its instance on the branch -/
-theorem HInv.addNw (H : HInv L mw dead b h) (k : RuleKey) (n w' : Nat)
+theorem HInv.addNw (H : HInv L mw mc dead b h) (k : RuleKey) (n w' : Nat)
     (hdone : ∃ sn d w r whole l0, b.nodes[n]? = some (.sent sn d w) ∧
       L.ruleFor sn d = some (r, whole, l0) ∧ groupsDone b (instGroups whole l0 w none (some w') r) = true) :
-    HInv L mw dead b { h with nws := amod [] (· ++ [(n, w')]) h.nws k } :=
+    HInv L mw mc dead b { h with nws := amod [] (· ++ [(n, w')]) h.nws k } :=
   { windex := H.windex, unserial := H.unserial, cacheSound := H.cacheSound, cacheComplete := H.cacheComplete,
     nwDone := fun k' i w2 hm => by
       have hm' : (i, w2) ∈ aget [] (amod [] (· ++ [(n, w')]) h.nws k) k' := hm
@@ -58,9 +64,9 @@ theorem HInv.addNw (H : HInv L mw dead b h) (k : RuleKey) (n w' : Nat)
     worlded := H.worlded, lastSerial := H.lastSerial }
 
 /-- `after_node_tick`: node i (unticked so far) is ticked, having received what `tickDone` asks for -/
-theorem HInv.tick (H : HInv L mw dead b h) (i : Nat) {sn : Sent} {d : Option Bool} {w : Option Nat}
+theorem HInv.tick (H : HInv L mw mc dead b h) (i : Nat) {sn : Sent} {d : Option Bool} {w : Option Nat}
     (hn : b.nodes[i]? = some (.sent sn d w)) (hd : tickDone L b sn d w) :
-    HInv L mw dead { b with ticked := b.ticked ++ [i] } (h.tick i) :=
+    HInv L mw mc dead { b with ticked := b.ticked ++ [i] } (h.tick i) :=
   { windex := H.windex, unserial := H.unserial
     cacheSound := fun r j hj => by
       obtain ⟨hc, hne⟩ := mem_cache_tick.1 hj
@@ -125,14 +131,14 @@ theorem extend_parent (b : Branch) (ns : List Node) (tick : Option Nat) :
     ({ b.extend ns tick with parent := b.parent } : Branch) = b.extend ns tick := rfl
 
 /-- the invariant of a branch extended through `Branch.extend` with helper state `BranchH.upd` -/
-theorem HInv.extend {L : LogicData} {mw : Nat} {dead : RuleId → Nat → Prop} {b : Branch} {h : BranchH}
-    (H : HInv L mw dead b h) (ns : List Node) (tick : Option Nat) (p : Option Nat)
+theorem HInv.extend {L : LogicData} {mw mc : Nat} {dead : RuleId → Nat → Prop} {b : Branch} {h : BranchH}
+    (H : HInv L mw mc dead b h) (ns : List Node) (tick : Option Nat) (p : Option Nat)
     (hw : L.modal = true → ∀ sn d w, Node.sent sn d w ∈ ns → w.isSome = true)
     (hd : ∀ r i, b.nodes.length ≤ i → ¬ dead r i)
     (hl : ∀ w2, h.lastSerial = some w2 → ∀ sn d, Node.sent sn d (some w2) ∉ ns)
     (htick : ∀ n, tick = some n → n ∉ b.ticked →
       ∃ sn d w, b.nodes[n]? = some (.sent sn d w) ∧ tickDone L { b with nodes := b.nodes ++ ns } sn d w) :
-    HInv L mw dead { b.extend ns tick with parent := p } (h.upd L b { b.extend ns tick with parent := p }) := by
+    HInv L mw mc dead { b.extend ns tick with parent := p } (h.upd L b { b.extend ns tick with parent := p }) := by
   rw [upd_extend]
   have G := H.grow ns b h hw hd hl
   cases tick with
@@ -168,9 +174,9 @@ theorem inv_core {L : LogicData} {s1 : SState} (hinv : Inv L s1) {bi : Nat} {b :
     (b0 : Branch) (own : BranchH) (extra : List Branch) (extraH : List BranchH)
     (hlen : extraH.length = extra.length)
     (hext : b.nodes.length ≤ b0.nodes.length)
-    (hown : b0.closed = false → HInv L s1.maxWorlds (fun r i => (bi, i) ∈ s1.garbage r) b0 own)
+    (hown : b0.closed = false → HInv L s1.maxWorlds s1.maxConsts (fun r i => (bi, i) ∈ s1.garbage r) b0 own)
     (hex : ∀ (k : Nat) bn hn, extra[k]? = some bn → extraH[k]? = some hn → bn.closed = false →
-      HInv L s1.maxWorlds (fun _ _ => False) bn hn) :
+      HInv L s1.maxWorlds s1.maxConsts (fun _ _ => False) bn hn) :
     Inv L { s1 with tab := s1.tab.set bi b0 ++ extra, hs := s1.hs.set bi own ++ extraH } := by
   have hbi : bi < s1.tab.length := by
     rcases Nat.lt_or_ge bi s1.tab.length with h1 | h1
@@ -270,10 +276,10 @@ theorem inv_applyTarget_of {L : LogicData} {s1 s' : SState} {r : RuleId} {st : S
     (ht : applyStep L s1.tab st = some (s1.tab.set st.branch b0 ++ extra))
     (hs' : applyTarget L s1 r st = some s')
     (hext : b.nodes.length ≤ b0.nodes.length)
-    (hown : b0.closed = false → HInv L s1.maxWorlds (fun r' i => (st.branch, i) ∈ s1.garbage r') b0
+    (hown : b0.closed = false → HInv L s1.maxWorlds s1.maxConsts (fun r' i => (st.branch, i) ∈ s1.garbage r') b0
       (afterApply L r st (({ h with lastSerial := lsOf r st } : BranchH).upd L b b0)))
     (hex : ∀ bn ∈ extra, bn.closed = false →
-      HInv L s1.maxWorlds (fun _ _ => False) bn (({ h with lastSerial := none } : BranchH).upd L b bn)) :
+      HInv L s1.maxWorlds s1.maxConsts (fun _ _ => False) bn (({ h with lastSerial := none } : BranchH).upd L b bn)) :
     Inv L s' := by
   rw [applyTarget_eq hb hh ht] at hs'
   simp only [Option.some.injEq] at hs'
@@ -447,11 +453,11 @@ theorem applyTarget_some {L : LogicData} {s1 s' : SState} {r : RuleId} {st : Ste
       | some t' => exact ⟨b, hh, t', rfl, rfl, rfl⟩
 
 /-- the `AFTER_APPLY` listeners keep the branch-local invariant, given the instance behind a new `NodesWorlds` pair -/
-theorem HInv.afterApply {L : LogicData} {mw : Nat} {dead : RuleId → Nat → Prop} {b : Branch} {h : BranchH}
-    (H : HInv L mw dead b h) (r : RuleId) (st : Step)
+theorem HInv.afterApply {L : LogicData} {mw mc : Nat} {dead : RuleId → Nat → Prop} {b : Branch} {h : BranchH}
+    (H : HInv L mw mc dead b h) (r : RuleId) (st : Step)
     (hnw : ∀ bb n c w', st = .rule bb n c (some w') → ∃ sn d w r' whole l0, b.nodes[n]? = some (.sent sn d w) ∧
       L.ruleFor sn d = some (r', whole, l0) ∧ groupsDone b (instGroups whole l0 w none (some w') r') = true) :
-    HInv L mw dead b (afterApply L r st h) := by
+    HInv L mw mc dead b (afterApply L r st h) := by
   unfold Ptx.Search.afterApply
   cases r with
   | closure => exact H
@@ -460,8 +466,8 @@ theorem HInv.afterApply {L : LogicData} {mw : Nat} {dead : RuleId → Nat → Pr
     simp only
     split
     · next rl hrl =>
-      have H1 : ∀ flag : Bool, HInv L mw dead b
-          (if (rl.witness == .newWorld || rl.witness == .eachWorld) = true then
+      have H1 : ∀ flag : Bool, HInv L mw mc dead b
+          (if (rl.witness != .none) = true then
             { h with quits := amod false (fun _ => flag) h.quits k } else h) := by
         intro flag
         split
@@ -470,6 +476,7 @@ theorem HInv.afterApply {L : LogicData} {mw : Nat} {dead : RuleId → Nat → Pr
       split
       · next bb n c w' hwit =>
         exact (H1 _).addNw k n w' (hnw bb n c w' rfl)
+      · exact (H1 _).setNcs _
       · exact H1 _
     · exact H
 
@@ -840,7 +847,7 @@ theorem mem_targets {L : LogicData} {s : SState} {r : RuleId} {bi : Nat} {st : S
     ∃ b hh, s.tab[bi]? = some b ∧ s.hs[bi]? = some hh ∧ b.closed = false ∧
       st ∈ (match r with
         | .closure => (hh.closeT.map (closeStep bi)).toList
-        | .table k => tableTargets L s.maxWorlds bi b hh (s.live r bi) k
+        | .table k => tableTargets L s.maxWorlds s.maxConsts bi b hh (s.live r bi) k
         | .frame fr => frameTargets L s bi b hh (s.live r bi) fr) := by
   unfold targets at h
   split at h
@@ -923,14 +930,16 @@ theorem quit_target_tick {L : LogicData} {s : SState} (hinv : Inv L s) {r : Rule
     split at hmem
     · cases hmem
     · next rl hrl =>
-      have key : Step.quit bi' name tick ∈ flagTargets bi rl (hh.quit k) (s.live (.table k) bi) →
+      have key : ∀ l : List Nat, (∀ i ∈ l, i ∈ s.live (.table k) bi) →
+          Step.quit bi' name tick ∈ flagTargets bi rl (hh.quit k) l →
           ∃ sn d w r' whole l0, b.nodes[n]? = some (.sent sn d w) ∧
             L.ruleFor sn d = some (r', whole, l0) ∧ r'.ticks = true := by
-        intro hf
+        intro l hl hf
         unfold flagTargets at hf
         split at hf
         · cases hf
-        · obtain ⟨i, hi, he⟩ := List.mem_map.1 hf
+        · obtain ⟨i, hi0, he⟩ := List.mem_map.1 hf
+          have hi := hl i hi0
           simp only [Step.quit.injEq] at he
           obtain ⟨_, _, he3⟩ := he
           rw [hn] at he3
@@ -951,17 +960,36 @@ theorem quit_target_tick {L : LogicData} {s : SState} (hinv : Inv L s) {r : Rule
       split at hmem
       · obtain ⟨_, _, he⟩ := List.mem_map.1 hmem; cases he
       · split at hmem
-        · exact key hmem
+        · exact key _ (fun _ h => h) hmem
         · obtain ⟨_, _, he⟩ := List.mem_map.1 hmem; cases he
       · split at hmem
-        · exact key hmem
+        · exact key _ (fun _ h => h) hmem
         · obtain ⟨i, _, hx⟩ := List.mem_flatMap.1 hmem
           split at hx
           · split at hx
             · obtain ⟨_, _, he⟩ := List.mem_map.1 hx; cases he
             · cases hx
           · cases hx
-      · cases hmem
+      · obtain ⟨i, hi, hx⟩ := List.mem_flatMap.1 hmem
+        split at hx
+        · split at hx
+          · exact key [i] (fun j hj => by simp at hj; exact hj ▸ hi) hx
+          · simp at hx
+        · cases hx
+      · obtain ⟨i, hi, hx⟩ := List.mem_flatMap.1 hmem
+        split at hx
+        · split at hx
+          · exact key [i] (fun j hj => by simp at hj; exact hj ▸ hi) hx
+          · split at hx
+            · cases hx
+            · split at hx
+              · obtain ⟨_, _, he⟩ := List.mem_map.1 hx; cases he
+              · split at hx
+                · split at hx
+                  · cases hx
+                  · simp at hx
+                · cases hx
+        · cases hx
 
 theorem targets_not_ident {L : LogicData} {s : SState} {r : RuleId} {bi b' i p : Nat} :
     Step.ident b' i p ∉ targets L s r bi := by
@@ -1016,7 +1044,26 @@ theorem targets_not_ident {L : LogicData} {s : SState} {r : RuleId} {bi b' i p :
             · obtain ⟨_, _, he⟩ := List.mem_map.1 hx; cases he
             · cases hx
           · cases hx
-      · cases hmem
+      · obtain ⟨i, _, hx⟩ := List.mem_flatMap.1 hmem
+        split at hx
+        · split at hx
+          · exact key _ _ _ hx
+          · simp at hx
+        · cases hx
+      · obtain ⟨i, _, hx⟩ := List.mem_flatMap.1 hmem
+        split at hx
+        · split at hx
+          · exact key _ _ _ hx
+          · split at hx
+            · cases hx
+            · split at hx
+              · obtain ⟨_, _, he⟩ := List.mem_map.1 hx; cases he
+              · split at hx
+                · split at hx
+                  · cases hx
+                  · simp at hx
+                · cases hx
+        · cases hx
 
 theorem mem_enabled {L : LogicData} {s : SState} {r : RuleId} {bi : Nat} {st : Step} (h : st ∈ enabled L s r bi) :
     st ∈ targets L s r bi := by
